@@ -60,9 +60,12 @@ impl TryFrom<&str> for TopicName {
             return Err(SeliumError::ParseTopicNameError);
         }
 
+        // Note that `value[1..]` would panic if the first character is wider than one byte
         #[cfg(not(feature = "__notopiccheck"))]
-        if value[1..].starts_with(RESERVED_NAMESPACE) {
-            return Err(SeliumError::ReservedNamespaceError);
+        if let Some(namespace) = value.strip_prefix('/') {
+            if namespace.starts_with(RESERVED_NAMESPACE) {
+                return Err(SeliumError::ReservedNamespaceError);
+            }
         }
 
         let matches = TOPIC_REGEX
